@@ -67,9 +67,9 @@ def run_codec_check(prop, codec, tier, seed, replay=None):
         rep.violation(p, "the verification harness does not build against the current tree", no_input=True)
         return rep.finish()
     lean_part(rep, prop)
-    fact_thms = {"C16": ["FactsCodec.gob_roundtrip", "FactsCodec.nothing_unrecognised"],
-                 "C17": ["FactsCodec.json_roundtrip", "FactsCodec.json_total", "FactsCodec.nothing_unrecognised"]}[prop]
-    facts_ok, facts_msg = facts.facts_part(rep, prop, "Sessions.FactsCodec", fact_thms)
+    fact_thms = {"C16": ["FactsCodec.gob_roundtrip", "FactsCodec.gob_recognised"],
+                 "C17": ["FactsCodec.json_roundtrip", "FactsCodec.json_total", "FactsCodec.json_recognised"]}[prop]
+    facts_ok, facts_msg = facts.facts_part(rep, prop, {"C16": "Sessions.FactsGob", "C17": "Sessions.FactsJson"}[prop], fact_thms)
     r = random.Random("%d/%s" % (seed, prop))
     viol = []
     if replay:
